@@ -131,6 +131,8 @@ func main() {
 		cmdDump(os.Args[2:])
 	case "mods":
 		cmdMods(os.Args[2:])
+	case "reach":
+		cmdReach(os.Args[2:])
 	default:
 		fmt.Fprintln(os.Stderr, "unknown command")
 		os.Exit(2)
